@@ -242,6 +242,16 @@ func (c *Ctx) walkLoops() ([]*walkLoop, []string) {
 					if !l.Blocks[cur.Block().Preds[i]] {
 						continue
 					}
+					// n = next, with next a result of the decode helper itself: the helper adds the stride to the
+					// cursor it was given (and may hand the cursor back unchanged together with an error)
+					if ex, isEx := e.(*ssa.Extract); isEx && ex.Tuple == ssa.Value(call) {
+						if k, sa, why := c.helperAdvance(call, ex.Index, cur); k != nil {
+							w.stride, w.strideAVP, w.form = k, sa, "cursor n = next, next = n + k computed by "+flow.StaticCallee(call).Name()
+						} else if why != "" {
+							problems = append(problems, fmt.Sprintf("%s: %s", fname(f), why))
+						}
+						continue
+					}
 					bo, ok := e.(*ssa.BinOp)
 					if !ok || bo.Op != token.ADD {
 						problems = append(problems, fmt.Sprintf("%s: cursor is not advanced by an addition", fname(f)))
@@ -263,6 +273,64 @@ func (c *Ctx) walkLoops() ([]*walkLoop, []string) {
 		}
 	}
 	return out, problems
+}
+
+// helperAdvance: result idx of the decode helper called at call is the next cursor. Every return of the helper
+// carries, in that result, either its cursor parameter plus one and the same amount k (returned with the AVP the
+// amount refers to), or — only together with an error that is not the nil constant — the cursor unchanged.
+func (c *Ctx) helperAdvance(call *ssa.Call, idx int, cur *ssa.Phi) (k ssa.Value, strideAVP ssa.Value, why string) {
+	g := flow.StaticCallee(call)
+	if g == nil || g.Blocks == nil {
+		return nil, nil, ""
+	}
+	var gp *ssa.Parameter
+	for i, a := range call.Call.Args {
+		if a == ssa.Value(cur) && i < len(g.Params) {
+			gp = g.Params[i]
+		}
+	}
+	if gp == nil {
+		return nil, nil, "the decode helper is not given the loop cursor it is said to advance"
+	}
+	nres := g.Signature.Results().Len()
+	errIdx := -1
+	if nres > 0 && isErrorType(g.Signature.Results().At(nres-1).Type()) {
+		errIdx = nres - 1
+	}
+	for _, b := range g.Blocks {
+		ret, ok := b.Instrs[len(b.Instrs)-1].(*ssa.Return)
+		if !ok || b == g.Recover || len(ret.Results) <= idx {
+			continue
+		}
+		v := ret.Results[idx]
+		if v == ssa.Value(gp) {
+			if errIdx < 0 || flow.IsNilConst(ret.Results[errIdx]) {
+				return nil, nil, "the decode helper can hand back the cursor unchanged without an error"
+			}
+			continue
+		}
+		bo, ok := v.(*ssa.BinOp)
+		if !ok || bo.Op != token.ADD {
+			return nil, nil, "cursor is not advanced by an addition"
+		}
+		var kk ssa.Value
+		switch {
+		case bo.X == ssa.Value(gp):
+			kk = bo.Y
+		case bo.Y == ssa.Value(gp):
+			kk = bo.X
+		default:
+			return nil, nil, "the next cursor the decode helper returns is not its cursor argument plus an amount"
+		}
+		if k != nil && k != kk {
+			return nil, nil, "the decode helper advances the cursor by different amounts on different returns"
+		}
+		k, strideAVP = kk, ret.Results[0]
+	}
+	if k == nil {
+		return nil, nil, "cannot identify the cursor increment"
+	}
+	return k, strideAVP, ""
 }
 
 func runC04(c *Ctx) {
